@@ -1618,7 +1618,8 @@ class KDecompose:
         if maps is not None and desc.get("np_maps"):
             maps = [m if m is None else np.int64(m) for m in maps]
         a = dict(circ=dq_abs(qc), ids=ids, maps=None if maps is None else [None if m is None else int(m) for m in maps],
-                 inplace=desc["inplace"])
+                 inplace=desc["inplace"],
+                 two=[k for k, inst in enumerate(qc.data) if isinstance(inst.operation, TwoQubitQPDGate)])
         args = [qc, ids] + ([] if maps is None else [maps])
         impl = observe(decompose_qpd_instructions, args, dict(inplace=desc["inplace"]),
                        state=lambda: dq_bids(qc) if len(qc.data) == len(a["circ"]) else None)
@@ -1627,7 +1628,7 @@ class KDecompose:
     def emit(self, a, impl):
         circ = [Raw("DOther") if x is None else Raw(f"(DQ {x[0]} {x[1]} {c_optn(x[2]).s})") for x in a["circ"]]
         maps = "None" if a["maps"] is None else f"(Some {coq([c_optz(m) for m in a['maps']])})"
-        i = Raw(f"(mkDq {coq(circ)} {coq(a['ids'])} {maps})")
+        i = Raw(f"(mkDq {coq(circ)} {coq(a['ids'])} {maps} {coq(list(a['two']))})")
         fin = impl["final"] if impl["final"] is not None else []
         return (i, a["inplace"], c_out(impl["outcome"]), impl["unchanged"], [c_optn(b) for b in fin])
 
@@ -1642,6 +1643,11 @@ class KDecompose:
             out.append("not_a_qpd_gate")
         if any(c[k] is not None and c[g[0]] is not None and c[k][0] != c[g[0]][0] for g in ids for k in g):
             out.append("bases_differ")
+        if any(len(g) == 2 and k in a["two"] for g in ids for k in g):
+            out.append("two_qubit_gate_in_pair")
+        flat = [k for g in ids for k in g]
+        if len(set(flat)) != len(flat):
+            out.append("repeated_index")
         if sum(len(g) for g in ids) != sum(1 for x in c if x is not None):
             out.append("gate_total")
         if maps is not None:
@@ -1659,7 +1665,7 @@ class KDecompose:
     def gen(self, rng, q):
         C = ["valid", "valid", "group_size", "not_a_qpd_gate", "bases_differ", "gate_total", "map_count",
              "map_index_range", "map_index_range", "map_index_range", "map_entry_none", "map_entry_none", "unset_basis_id",
-             "unset_basis_id", "undoc:index"]
+             "unset_basis_id", "undoc:index", "repeated_index", "repeated_index", "two_in_pair", "two_in_pair"]
         for _ in range(q(160)):
             cls = pick(rng, C)
             nq = int(rng.integers(2, 5))
@@ -1730,6 +1736,39 @@ class KDecompose:
                 maps[j] = int(pick(rng, [nm[j], nm[j] + 3, -1, -nm[j], 99]))
             elif cls == "map_entry_none":
                 maps[j] = None
+            elif cls == "repeated_index":
+                r = int(rng.integers(0, 3))
+                if r == 0:
+                    # an index listed in two decompositions; the count still matches (one more gate in the circuit)
+                    a, b = (int(x) for x in rng.permutation(nq)[:2])
+                    items.append(["q2", groups[j][1], None, [a, b]] if len(ids[j]) == 1 else ["q1", groups[j][1], 0, None, [a]])
+                    jj = int(rng.integers(0, len(ids) + 1))
+                    ids.insert(jj, [ids[j][0]] if len(ids[j]) == 1 or rng.integers(0, 2) else [ids[j][1]])
+                    maps.insert(jj, 0)
+                elif r == 1:
+                    # the same index twice inside one decomposition: [k, k]
+                    a, b = (int(x) for x in rng.permutation(nq)[:2])
+                    items += [["q1", 0, 0, None, [a]], ["q1", 0, 1, None, [b]]]
+                    k = len(items) - int(rng.integers(1, 3))
+                    ids.insert(j, [k, k])
+                    maps.insert(j, 0)
+                else:
+                    # a whole decomposition listed twice, count NOT matching either
+                    ids.insert(int(rng.integers(0, len(ids) + 1)), list(ids[j]))
+                    maps.append(0)
+            elif cls == "two_in_pair":
+                # a TwoQubitQPDGate inside a two-element decomposition, first or second, with a gate of the same basis
+                a, b = (int(x) for x in rng.permutation(nq)[:2])
+                slot = int(rng.integers(0, 4))
+                items.append(["q2", slot, None, [a, b]])
+                k2 = len(items) - 1
+                if rng.integers(0, 2):
+                    items.append(["q2", slot, None, [b, a]])
+                else:
+                    items.append(["q1", slot, int(rng.integers(0, 2)), None, [a]])
+                k1 = len(items) - 1
+                ids.insert(j, [k2, k1] if rng.integers(0, 2) else [k1, k2])
+                maps.insert(j, 0)
             elif cls == "undoc:index":
                 ids[j] = [len(items) + int(rng.integers(0, 3))]
             use_maps = True
@@ -1751,7 +1790,7 @@ class KDecompose:
                     for k in unset_group[-1:] if rng.integers(0, 2) else unset_group:
                         items[k][2 if items[k][0] == "q2" else 3] = None
             yield cls, dict(nq=nq, items=items, ids=ids, maps=maps if use_maps else None,
-                            inplace=bool(rng.integers(0, 3)) or cls in ("unset_basis_id", "map_entry_none"),
+                            inplace=bool(rng.integers(0, 3)) or cls in ("unset_basis_id", "map_entry_none", "two_in_pair"),
                             np_maps=bool(use_maps and rng.integers(0, 4) == 0))
 
 
